@@ -97,6 +97,23 @@ pub fn check_case(ctx: &mut Ctx, ps: &mut Parsers, case: &Case) {
     ctx.count(if valid { "scalable_valid" } else { "scalable_invalid_but_present" });
     ctx.count_n("ingredients_with_recipe_reference", rec.ingredients.iter().filter(|i| i.reference.is_some()).count() as u64);
     let cause = meta_cause(&rec.metadata);
+    // what an application does before it stores a recipe: it looks at it. Reading through the public accessors (none of
+    // them takes `&mut`) must not change what the recipe is equal to.
+    let looked = crate::core::guarded(|| {
+        let m = &rec.metadata;
+        let mut n = 0usize;
+        n += m.servings().map(|s| s.len()).unwrap_or(0);
+        n += m.title().map(|s| s.len()).unwrap_or(0);
+        n += m.tags().map(|t| t.len()).unwrap_or(0);
+        n += m.author().map(|_| 1).unwrap_or(0) + m.source().map(|_| 1).unwrap_or(0) + m.locale().map(|_| 1).unwrap_or(0);
+        n += m.time(ps.parser(case.ext, &case.conv).converter()).map(|_| 1).unwrap_or(0);
+        n += m.map_filtered().count() + rec.servings().map(|s| s.len()).unwrap_or(0);
+        n += rec.ingredients.iter().map(|i| i.display_name().len() + i.modifiers().bits() as usize).sum::<usize>();
+        n
+    });
+    if looked.is_ok() {
+        ctx.count("recipes_read_through_accessors_before_the_round_trip");
+    }
     // 1. ScalableRecipe
     let res = crate::core::guarded(|| -> Result<(), (String, String)> {
         let s1 = serde_json::to_string(&rec).map_err(|e| ("serialize_failed".to_string(), e.to_string()))?;
